@@ -265,6 +265,7 @@ class HLBNoisy(HLB):
             if not eng.concrete:
                 eng.assume(fs_.e >= 0)
             H.record("fsd", fs_, i); H.record("gp", gp, i); H.record("gp_hyp_full", np.zeros(3), i)
+            H.record("mesh_size", 2.0 ** (-i), i); H.record("search_mesh_size", 2.0 ** (-10 - 2 * i), i); H.record("func_count", 10 + 3 * i, i)
         s.iteration_history = H
         s.u = sym_array(eng, "u", (D,))
         s.u_best = s.u.copy()
@@ -291,6 +292,7 @@ class HLBNoisy(HLB):
             s.mesh_size = 2.0 ** s.mesh_size_integer
             s.optim_state["mesh_size"] = s.mesh_size
             polled["u"], polled["y"] = snap(np.asarray(_raw(s.u))), s.yval
+            polled["k"] = s.mesh_size_integer
 
         def reeval(gp_):
             n = len(H.get("u"))
@@ -311,6 +313,8 @@ class HLBNoisy(HLB):
         out.ob("noisy_incumbent_point_and_observation_belong_together",
                O.Or(*[O.And(O.rows_eq(U, pu, 0.0), O.eq(s.yval, py, 0.0)) for pu, py in pairs]))
         out.ob("noisy_incumbent_survives_next_iteration", O.rows_eq(U, Ub, 0.0))     # the loop head does self.u = self.u_best
+        out.ob("mesh_exponent_changes_only_in_poll", int(s.mesh_size_integer) == int(polled["k"]))
+        out.ob("mesh_size_consistent", s.mesh_size == 2.0 ** int(polled["k"]) and s.optim_state["mesh_size"] == 2.0 ** int(polled["k"]))
         rec_u, rec_y = np.asarray(_raw(H.get("u")[it])), H.get("yval")[it]
         out.ob("recorded_point_and_observation_belong_together", O.And(O.rows_eq(rec_u, polled["u"], 0.0), O.eq(rec_y, polled["y"], 0.0)))
         return out
